@@ -977,10 +977,17 @@ fn era1_and_paced2_cases(r: &mut Runner) {
 /// seek failure at the k-th transfer start, transient and permanent, read failure inside a transfer
 fn stream_fault_cases(r: &mut Runner) {
     let mut i = 0;
+    // permanently failing source and a large max_transfer_count: how many transfers does ONE read call run through?
+    for (maxc, read_at) in [(5u32, 1_000_001u64), (500, 1_000_001), (1_200, 1_000_001), (1_200, 1_000_002)] {
+        i += 1;
+        r.begin(&format!("streamfault-loop-{}", i));
+        r.op(format!("sched probe f 3 {} n 0 0 {}", maxc, read_at));
+        r.finish();
+    }
     for full in ["f", "b"] {
         for car in ["n", "d"] {
             for maxc in [1u32, 2, 3] {
-                for (from, count, read_at) in [(0u64, 0u64, 0u64), (1, 1, 0), (2, 1, 0), (1, 2, 0), (1, 1_000_000, 0), (3, 1_000_000, 0), (0, 0, 1), (0, 0, 2), (0, 0, 3), (2, 1, 3)] {
+                for (from, count, read_at) in [(0u64, 0u64, 0u64), (1, 1, 0), (2, 1, 0), (1, 2, 0), (1, 1_000_000, 0), (3, 1_000_000, 0), (0, 0, 1), (0, 0, 2), (0, 0, 3), (2, 1, 3), (0, 0, 1_000_001), (0, 0, 1_000_002)] {
                     for n_sym in [1u64, 5, 9] {
                         i += 1;
                         r.begin(&format!("streamfault-{}", i));
